@@ -36,6 +36,7 @@ CONSTANTS
   MCExtra = %(extra)s
   MCMulti = %(multi)s
   MCHow = %(how)s
+  MCEniGone = %(enigone)s
   MCEnis = %(enis)s
   BadDesign = "%(bad)s"
   GenLen = 0
@@ -64,7 +65,13 @@ OBSERVE_SCEN = [
      dict(a="setup", p=1, i=0, dp="policy", fam="dual", eni=2, multi=False, extra=1, trunk=False, aset=0, peer=True, how="", keep=True, **{"def": True}),
      dict(a="teardown", p=2, how="generic"),
      dict(a="setup", p=2, i=0, dp="exclusive", fam="v4", eni=1, multi=False, extra=0, trunk=False, aset=0, peer=True, how="", keep=True, **{"def": True}),
-     dict(a="teardown", p=1, how="cni"), dict(a="teardown", p=2, how="cni")]]
+     dict(a="teardown", p=1, how="cni"), dict(a="teardown", p=2, how="cni")],
+    # the ENI two veth pods share vanishes before their DEL: both teardown variants then run with ENIIndex 0
+    [dict(a="setup", p=1, i=0, dp="policy", fam="dual", eni=1, multi=False, extra=0, trunk=False, aset=0, peer=True, how="", keep=False, **{"def": True}),
+     dict(a="setup", p=2, i=0, dp="policy", fam="v4", eni=1, multi=False, extra=1, trunk=False, aset=0, peer=True, how="", keep=False, **{"def": True}),
+     dict(a="setup", p=3, i=0, dp="policy", fam="dual", eni=2, multi=False, extra=0, trunk=False, aset=0, peer=True, how="", keep=False, **{"def": True}),
+     dict(a="enigone", eni=1),
+     dict(a="teardown", p=1, how="dp"), dict(a="teardown", p=2, how="cni"), dict(a="teardown", p=3, how="cni")]]
 
 
 class Sub:
@@ -108,10 +115,12 @@ def mc_run(ctx, name, params, workers, expect_refused=False, timeout=1500):
 def model_checking(ctx):
     """Exhaustive runs of the bounded closure (reference design accepted, invariant implied) and of the seeded design errors."""
     q = ctx.quick
-    base = dict(ns="{0, 1, 2}", atts="{1, 2, 3, 4}", pods="{1, 2}", extra="{1}", multi="{FALSE, TRUE}", enis="{1, 2}", bad="", inv="InvC13", how='{"cni"}')
+    base = dict(ns="{0, 1, 2}", atts="{1, 2, 3, 4}", pods="{1, 2}", extra="{1}", multi="{FALSE, TRUE}", enis="{1, 2}", bad="", inv="InvC13", how='{"cni"}', enigone="FALSE")
     runs = [("all4", dict(base, dps='{"policy", "exclusive", "ipvlan", "vlan"}', fams='{"dual"}', trunk="{FALSE}"), 8 if q else 6),
             ("fam", dict(base, dps='{"policy", "ipvlan"}', fams='{"v4", "v6", "dual"}', trunk="{FALSE, TRUE}", extra="{0, 1}", multi="{FALSE}", enis="{1}"), 4),
             # fallback DEL (GenericTearDown alone) leaves rules behind; the slot's next pod may get the same address on either ENI
+            # an ENI vanishes while pods use it: their teardown runs without an ENI index and must still remove their rules
+            ("enigone", dict(base, dps='{"policy", "exclusive"}', fams='{"dual"}', trunk="{FALSE}", multi="{FALSE}" if q else "{FALSE, TRUE}", enigone="TRUE"), 4),
             ("reuse", dict(base, dps='{"policy"}', fams='{"v4"}' if q else '{"dual"}', trunk="{FALSE}", multi="{FALSE}", how='{"cni", "generic"}'), 4)]
     if not q:
         runs += [("pods3", dict(base, ns="{0, 1, 2, 3}", atts="{1, 2, 3, 4, 5, 6}", pods="{1, 2, 3}", dps='{"policy"}', fams='{"v4", "dual"}', trunk="{FALSE}"), 6),
@@ -123,6 +132,8 @@ def model_checking(ctx):
                  ("reuse2", dict(base, dps='{"policy", "exclusive"}', fams='{"dual"}', trunk="{FALSE}", multi="{FALSE}", how='{"cni", "generic"}'), 6)]
     bad = [(b[0], dict(base, dps=b[1], fams=b[2], trunk=b[3], enis=b[4], bad=b[0], inv="BadRefused", multi="{FALSE}"), 1) for b in BAD_DESIGNS]
     # a stale from-rule of a re-used address survives Setup: only manifests after a generic teardown and re-use on the other ENI
+    bad.append(("teardown_skips_rules_without_eni", dict(base, dps='{"policy"}', fams='{"dual"}', trunk="{FALSE}", bad="teardown_skips_rules_without_eni",
+                                                         inv="OrphanRefused", multi="{FALSE}", enigone="TRUE"), 1))
     bad.append(("stale_from_rule_kept", dict(base, dps='{"policy"}', fams='{"dual"}', trunk="{FALSE}", bad="stale_from_rule_kept", inv="ReuseRefused",
                                              multi="{FALSE}", how='{"generic"}'), 1))
     out = {}
@@ -173,11 +184,19 @@ def tags(t):
             live.discard(r["pod"])
             s.add("teardown")
             if live: s.add("teardown_while_others_live")
+    gone = set()
+    for r in t:
+        if r["ev"] == "enigone":
+            s.add("eni_vanished")
+            gone.add(r["eni"])
+        if r["ev"] == "setup_d" and r["ok"] and r["cfg"]["dp"] == "policy": held[("e", r["cfg"]["pod"])] = r["cfg"]["eni"]
+        if r["ev"] == "teardown_d" and held.pop(("e", r["pod"]), None) in gone and r.get("how") != "generic":
+            s.add("teardown_without_eni_index")
     if any(r["ev"] == "rget" for r in t): s.add("kernel_lookups_compared")
     return s
 
 
-RELEVANT = {"address_reused_after_fallback_del", "pods_share_eni", "multi_network_second_interface", "trunk", "extra_routes", "dual_stack", "v6_only", "teardown_while_others_live"}
+RELEVANT = {"teardown_without_eni_index", "address_reused_after_fallback_del", "pods_share_eni", "multi_network_second_interface", "trunk", "extra_routes", "dual_stack", "v6_only", "teardown_while_others_live"}
 
 
 def run_harness(ctx, binary, test, scen_file, nrandom, nshard, netns, extra_env=None):
@@ -338,7 +357,7 @@ def run(ctx):
                rule="scenarios = TLC simulation of Datapath_mc.tla (setup of a pod interface with datapath x family x ENI x default route x "
                     "multi-network x extra routes x trunk x address plan, second interface of a multi-network pod, teardown as CNI DEL, by "
                     "PolicyRoute.Teardown alone or as the fallback DEL = GenericTearDown alone, a new pod given the address of the slot's "
-                    "previous pod on the same or the other ENI) + seeded random scenarios with random address plans; level 1 = all four datapaths' "
+                    "previous pod on the same or the other ENI, an ENI vanishing from the node while pods use it so that their teardown runs with ENIIndex 0) + seeded random scenarios with random address plans; level 1 = all four datapaths' "
                     "generators judged with the model kernel, level 2 = real Setup/Teardown of policy-route veth and exclusive ENI in private "
                     "network namespaces judged on kernel dumps; non-trivial = trace carries one of %s; distinct by trace hash" % sorted(RELEVANT),
                samples=sample)
@@ -361,6 +380,8 @@ def run(ctx):
         "an error promises nothing for that pod but must leave the others intact",
         "the fallback DEL (utils.GenericTearDown alone, what cmdDel does when the daemon has no allocation record) is not required to remove the "
         "pod's rules/routes; the leftovers stay in the state and every later Setup (same address on the same or another ENI) is judged with them",
+        "after an ENI vanished nothing is required of the traffic of the pods that used it; their Teardown (ENIIndex 0, as parseTearDownConf builds it "
+        "when the MAC no longer resolves) must still remove their rules/routes/links and leave the others intact",
         "level 1 applies a nic.Conf with the model's semantics of addr/route/rule replace; nic.Setup and the Ensure* helpers themselves run at level 2 only"])
 
 
